@@ -2,7 +2,7 @@
 from __future__ import annotations
 
 import ast
-from typing import Any, Dict, List, Optional, Tuple
+from typing import Any, Dict, List, Optional, Set, Tuple
 
 from sa import AnalysisError
 from sa.pm import ClassInfo, FuncInfo, Program, norm, self_attr, walk_local_ordered
@@ -182,3 +182,130 @@ def expand(f: FuncInfo, e: ast.AST, depth: int = 4) -> ast.AST:
 def xnorm(f: FuncInfo, e: ast.AST) -> str:
     """Normalised text of `e` after expanding single-definition locals."""
     return norm(expand(f, e))
+
+
+# ----------------------------------------------------------------- shared mutable module state
+_MUTABLE_CTORS = {'bytearray', 'list', 'dict', 'set', 'deque', 'defaultdict', 'OrderedDict', 'array', 'memoryview', 'Counter'}
+_MUTATORS = {'append', 'appendleft', 'extend', 'insert', 'pop', 'popleft', 'popitem', 'remove', 'clear', 'update', 'setdefault', 'add', 'discard', 'sort', 'reverse', '__setitem__', '__delitem__', 'write', 'pack_into'}
+
+
+def mutable_module_globals(prog: Any, m: Any) -> Dict[str, ast.AST]:
+    """Module-level names bound to a mutable container (literal or constructor call)."""
+    out: Dict[str, ast.AST] = {}
+    for name, val in m.assigns.items():
+        if isinstance(val, (ast.List, ast.Dict, ast.Set, ast.ListComp, ast.DictComp, ast.SetComp)):
+            out[name] = val
+        elif isinstance(val, ast.Call) and call_name(val) in _MUTABLE_CTORS:
+            out[name] = val
+    return out
+
+
+def shared_state_mutations(prog: Any, f: FuncInfo) -> List[Tuple[ast.AST, str, str]]:
+    """Sites in f that mutate a mutable module-level container -- directly or through a local alias
+    (`buf = _SCRATCH; buf[i] |= x`) -- or rebind a module global.  Returns (node, global name, how)."""
+    m = f.module
+    glob = mutable_module_globals(prog, m)
+    for nm, src in m.imports.items():  # from .x import _TABLE
+        if len(src) == 3 and src[0] == 'from':
+            mod = prog.modules.get(src[1])
+            if mod is not None and src[2] in mutable_module_globals(prog, mod):
+                glob[nm] = mod.assigns[src[2]]
+    params = set(f.params)
+    stores: Dict[str, List[ast.AST]] = {}
+    declared_global: Set[str] = set()
+    for n in walk_local_ordered(f.node):
+        if isinstance(n, ast.Global):
+            declared_global.update(n.names)
+        if isinstance(n, ast.Name) and isinstance(n.ctx, ast.Store):
+            stores.setdefault(n.id, []).append(n)
+    alias: Dict[str, str] = {g: g for g in glob if g not in params and (g not in stores or g in declared_global)}
+    changed = True
+    while changed:
+        changed = False
+        for n in walk_local_ordered(f.node):
+            if isinstance(n, ast.Assign) and len(n.targets) == 1 and isinstance(n.targets[0], ast.Name) and isinstance(n.value, ast.Name) and n.value.id in alias and n.targets[0].id not in alias:
+                alias[n.targets[0].id] = alias[n.value.id]
+                changed = True
+    out: List[Tuple[ast.AST, str, str]] = []
+
+    def base(x: ast.AST) -> Optional[str]:
+        while isinstance(x, ast.Subscript):
+            x = x.value
+        return alias.get(x.id) if isinstance(x, ast.Name) else None
+
+    for n in walk_local_ordered(f.node):
+        if isinstance(n, (ast.Assign, ast.AugAssign, ast.AnnAssign, ast.Delete)):
+            tg = n.targets if isinstance(n, (ast.Assign, ast.Delete)) else [n.target]
+            for t in tg:
+                if isinstance(t, ast.Subscript) and base(t):
+                    out.append((n, base(t) or '?', 'item store'))
+                if isinstance(t, ast.Name) and t.id in declared_global:
+                    out.append((n, t.id, 'module global rebound'))
+        if isinstance(n, ast.Call) and isinstance(n.func, ast.Attribute) and n.func.attr in _MUTATORS and base(n.func.value):
+            out.append((n, base(n.func.value) or '?', f'.{n.func.attr}()'))
+    return out
+
+
+# ----------------------------------------------------------------- one-shot iterators handed to multi-pass consumers
+_ONE_SHOT_CALLS = {'chain', 'map', 'filter', 'iter', 'zip', 'reversed', 'islice', 'from_iterable', 'starmap', 'takewhile', 'dropwhile', 'accumulate', 'enumerate'}
+_CONSUMERS = {'list', 'set', 'dict', 'tuple', 'sorted', 'frozenset', 'sum', 'any', 'all', 'min', 'max', 'update', 'extend', 'fromkeys', 'difference_update', 'intersection_update'}
+
+
+def iteration_weight(f: FuncInfo, name: str) -> Tuple[int, List[ast.AST]]:
+    """How often `name` (a parameter or local of f) may be iterated in one call of f: each iteration site counts once,
+    a site inside a loop (other than the loop that iterates `name` itself) counts twice."""
+    sites: List[Tuple[ast.AST, bool]] = []
+
+    def walk(n: ast.AST, in_loop: bool) -> None:
+        if isinstance(n, (ast.FunctionDef, ast.AsyncFunctionDef, ast.Lambda)) and n is not f.node:
+            return
+        if isinstance(n, (ast.For, ast.AsyncFor)):
+            if isinstance(n.iter, ast.Name) and n.iter.id == name:
+                sites.append((n, in_loop))
+            else:
+                walk(n.iter, in_loop)
+            for st in n.body + n.orelse:
+                walk(st, True)
+            return
+        if isinstance(n, ast.While):
+            walk(n.test, True)
+            for st in n.body + n.orelse:
+                walk(st, True)
+            return
+        if isinstance(n, (ast.ListComp, ast.SetComp, ast.GeneratorExp, ast.DictComp)):
+            for i, g in enumerate(n.generators):
+                if isinstance(g.iter, ast.Name) and g.iter.id == name:
+                    sites.append((n, in_loop or i > 0))
+                else:
+                    walk(g.iter, in_loop or i > 0)
+                for c in g.ifs:
+                    walk(c, True)
+            for e in ([n.key, n.value] if isinstance(n, ast.DictComp) else [n.elt]):
+                walk(e, True)
+            return
+        if isinstance(n, ast.Call) and call_name(n) in _CONSUMERS and any(isinstance(a, ast.Name) and a.id == name for a in n.args):
+            sites.append((n, in_loop))
+        for c in ast.iter_child_nodes(n):
+            walk(c, in_loop)
+
+    for st in f.node.body:  # type: ignore[attr-defined]
+        walk(st, False)
+    return sum(2 if lp else 1 for _, lp in sites), [s for s, _ in sites]
+
+
+def one_shot_sources(f: FuncInfo, e: ast.AST, depth: int = 3) -> List[ast.AST]:
+    """Sub-expressions through which `e` (an argument in f) may be a one-shot iterator: a generator expression, a call of
+    an itertools-style adaptor, or a local any of whose definitions is one."""
+    if isinstance(e, ast.GeneratorExp):
+        return [e]
+    if isinstance(e, ast.Call) and call_name(e) in _ONE_SHOT_CALLS:
+        return [e]
+    if isinstance(e, ast.IfExp):
+        return one_shot_sources(f, e.body, depth) + one_shot_sources(f, e.orelse, depth)
+    if isinstance(e, ast.Name) and depth > 0 and e.id not in f.params:
+        out: List[ast.AST] = []
+        for v in local_defs(f).get(e.id, []):
+            if v is not None:
+                out += one_shot_sources(f, v, depth - 1)
+        return out
+    return []
